@@ -263,11 +263,79 @@ def link_sly_confinement(ctx):
                     bad.append("line %d: module-level mutable container `%s`" % (n.lineno, tgt))
                 elif isinstance(v, ast.Call) and ast.unparse(v.func) not in ("TypeVar", "typing.TypeVar", "frozenset", "tuple", "re.compile"):
                     bad.append("line %d: module-level object `%s = %s(...)` shared by all callers" % (n.lineno, tgt, ast.unparse(v.func)))
+        # a function that rebinds a module-level name (`global x`) keeps state between calls just as well
+        for n in ast.walk(tree):
+            if isinstance(n, ast.Global):
+                bad.append("line %d: `global %s` -- a module-level variable is rebound at run time" % (n.lineno, ", ".join(n.names)))
         out.append(Obl("frame:%s.no-module-level-mutable-state" % mod.split("/")[-1], mod.replace("/", ".")[:-3], "frame",
                        "the module keeps no mutable object at module level (nothing is shared between evaluators, calls or threads)",
-                       status=DISCHARGED if not bad else REFUTED, backend="effect-scan", detail="; ".join(bad), props=PIPE_PROPS, model={"objects": bad} if bad else None,
+                       status=DISCHARGED if not bad else REFUTED, backend="effect-scan", detail="; ".join(bad),
+                       props=PIPE_PROPS + (("C03", "C10", "C12", "C15", "C16") if mod.endswith("binning.py") else ()), model={"objects": bad} if bad else None,
+                       replay=lambda ob: _thread_replay()))
+    # nothing on the compile+evaluate path changes a PROCESS-GLOBAL interpreter setting (a save/restore pair is not atomic:
+    # another thread can restore a stale value or run under the temporary one)
+    for mod in ("pyab_experiment/utils/wraper_functions.py", "pyab_experiment/experiment_evaluator.py", "pyab_experiment/binning/binning.py",
+                "pyab_experiment/codegen/python/python_generator.py", "pyab_experiment/language/grammar.py", "pyab_experiment/language/lexer.py",
+                "pyab_experiment/language/data_structures.py", "pyab_experiment/utils/custom_operators.py", "pyab_experiment/utils/stats.py",
+                "pyab_experiment/codegen/python/custom_exceptions.py"):
+        path = os.path.join(SRC, mod)
+        if not os.path.exists(path):
+            continue
+        with open(path) as f:
+            tree = ast.parse(f.read())
+        bad = process_global_mutations(tree)
+        out.append(Obl("frame:%s.no-process-global-settings-changed" % mod.split("/")[-1], mod.replace("/", ".")[:-3], "frame",
+                       "no call changes a process-wide interpreter setting (sys.set*, os.environ / chdir / umask, locale, random.seed, gc, warnings filters, signal, decimal context, sys.path / sys.modules)",
+                       status=DISCHARGED if not bad else REFUTED, backend="effect-scan", detail="; ".join(bad), props=("C17", "C01"), model={"calls": bad} if bad else None,
                        replay=lambda ob: _thread_replay()))
     return out
+
+
+PROCESS_GLOBAL_CALLS = {
+    "sys.setrecursionlimit", "sys.setswitchinterval", "sys.settrace", "sys.setprofile", "sys.setcheckinterval", "sys.set_int_max_str_digits", "sys.set_asyncgen_hooks",
+    "sys.setdlopenflags", "threading.settrace", "threading.setprofile", "threading.stack_size", "os.chdir", "os.umask", "os.putenv", "os.unsetenv", "os.setuid", "os.nice",
+    "locale.setlocale", "random.seed", "random.setstate", "gc.disable", "gc.enable", "gc.set_threshold", "gc.freeze", "warnings.simplefilter", "warnings.filterwarnings",
+    "warnings.resetwarnings", "signal.signal", "signal.alarm", "decimal.setcontext", "importlib.reload", "faulthandler.enable", "tracemalloc.start", "socket.setdefaulttimeout",
+    "time.tzset", "resource.setrlimit", "multiprocessing.set_start_method", "logging.basicConfig", "logging.disable", "atexit.register",
+}
+PROCESS_GLOBAL_OBJECTS = ("os.environ", "sys.path", "sys.modules", "sys.argv", "sys.stdout", "sys.stderr", "sys.stdin", "sys.meta_path", "sys.flags", "builtins.")
+
+
+def process_global_mutations(tree):
+    names = {}
+    for n in ast.walk(tree):
+        if isinstance(n, ast.Import):
+            for a in n.names:
+                names[(a.asname or a.name).split(".")[0]] = a.name if a.asname else a.name.split(".")[0]
+        elif isinstance(n, ast.ImportFrom) and n.module:
+            for a in n.names:
+                names[a.asname or a.name] = "%s.%s" % (n.module, a.name)
+
+    def qual(e):
+        try:
+            txt = ast.unparse(e)
+        except Exception:   # noqa
+            return ""
+        head = txt.split(".")[0].split("(")[0].split("[")[0]
+        return names.get(head, head) + txt[len(head):]
+    bad = []
+    for n in ast.walk(tree):
+        if isinstance(n, ast.Call):
+            q = qual(n.func)
+            if q in PROCESS_GLOBAL_CALLS:
+                bad.append("line %d: %s(...)" % (n.lineno, q))
+            elif any(q.startswith(o) and q[len(o):].lstrip(".").split("(")[0] in ("append", "insert", "extend", "remove", "pop", "clear", "update", "setdefault", "__setitem__", "write")
+                     for o in PROCESS_GLOBAL_OBJECTS if not o.startswith("sys.std")):
+                bad.append("line %d: %s(...)" % (n.lineno, q))
+            elif q.startswith("decimal.getcontext()") or q.startswith("decimal.localcontext"):
+                pass
+        elif isinstance(n, (ast.Assign, ast.AugAssign, ast.Delete)):
+            tgts = n.targets if isinstance(n, (ast.Assign, ast.Delete)) else [n.target]
+            for t in tgts:
+                q = qual(t)
+                if any(q.startswith(o) for o in PROCESS_GLOBAL_OBJECTS) or q.startswith("decimal.getcontext()."):
+                    bad.append("line %d: store to %s" % (n.lineno, q))
+    return bad
 
 
 def _thread_replay():
